@@ -23,6 +23,7 @@ from lib import evidence, goenv, graph, tlc
 from lib.common import MachineryError, classify_mismatches, log
 
 PKG = "./p2p/host/pstoremanager"
+PARENT = "C09"      # extension engine of C09 (lib/extension.py): classes are reported with property=C09
 INV = "INVARIANTS TypeOK QueueBound DiscSound Timely Inert ScanShape"
 PROPS = ("PROPERTIES RemovedOnlyIfReportedDisconnected GraceLower ReconnectKeeps Isolation AfterExit ExitRemovesRemembered "
          "AddrKept")
@@ -192,10 +193,32 @@ def _print_instance(args):
 
 
 def _go(ctx, beh):
-    return goenv.run_harness(ctx, PKG, "^TestVerifC09pm(Replay|Scenarios)$", inputs=beh, timeout=1500, parallel=4)
+    return goenv.run_harness(ctx, PKG, "^TestVerifC09pm(Replay|Scenarios)$", inputs=beh, timeout=900, parallel=4)
+
+
+def replay(ctx):
+    """Re-execute one saved mismatch (its executed prefix) on the current tree under the clause monitors (no model states)."""
+    import json
+    with open(ctx.replay) as f:
+        m = json.load(f)
+    if not m.get("prefix"):
+        raise MachineryError("scenario artefacts are replayed by the scenario test as a whole: run ./check C09pm")
+    cfgm = m.get("cfg") or {}
+    d = ctx.sub("beh")
+    hdr = {"instance": "replay-" + str(cfgm.get("instance")), "peers": cfgm.get("peers") or ["p1", "p2"], "G": cfgm.get("G"),
+           "I": cfgm.get("I"), "Buf": cfgm.get("Buf"), "atomic": bool(cfgm.get("atomic")), "initData": bool(cfgm.get("initData", True)),
+           "monitorsOnly": True}
+    graph.write_behaviours(os.path.join(d, "replay.jsonl"), [{"init": {}, "steps": [{"op": op, "state": {}} for op in m["prefix"]]}], hdr)
+    res = goenv.run_harness(ctx, PKG, "^TestVerifC09pmReplay$", inputs=d, timeout=900)
+    div = classify_mismatches(ctx, res, "replay")
+    cov = evidence.mc_coverage(0, 0, res["replayed"], [], exhaustive=False, replay_of=ctx.replay, replay_steps_executed=res["steps"],
+                               divergences_L2=div)
+    return {"level": "model_checking", "coverage": cov, "assumptions": ["re-execution of one saved prefix under the clause monitors"]}
 
 
 def run(ctx):
+    if ctx.replay:
+        return replay(ctx)
     thorough = ctx.tier == "thorough"
     t0 = time.time()
     marks = []
